@@ -8,6 +8,7 @@ require (
 	github.com/go-asn1-ber/asn1-ber v1.5.7
 	github.com/rs/zerolog v1.33.0
 	github.com/sassoftware/relic/v8 v8.0.0
+	github.com/spf13/cobra v1.8.1
 	github.com/spf13/pflag v1.0.5
 	software.sslmate.com/src/go-pkcs12 v0.5.0
 )
@@ -88,7 +89,6 @@ require (
 	github.com/rogpeppe/go-internal v1.12.0 // indirect
 	github.com/rs/xid v1.5.0 // indirect
 	github.com/sassoftware/go-rpmutils v0.4.0 // indirect
-	github.com/spf13/cobra v1.8.1 // indirect
 	github.com/streadway/amqp v1.1.0 // indirect
 	github.com/ulikunitz/xz v0.5.12 // indirect
 	github.com/xi2/xz v0.0.0-20171230120015-48954b6210f8 // indirect
